@@ -234,6 +234,9 @@ def strict_comment_check(before_src, after_src, op, put_code_src):
         return None
     (l0, c0), (l1, c1) = ext
     lines = before_src.split('\n')
+    blk = lambda T: sum(1 for t in T if t[1] in ('else', 'finally', 'elif', 'except', 'case'))
+    if blk(A) < blk(B):
+        return None   # the edit removed a whole block clause (its last statement): comments inside that clause have nowhere to stay
     import re as _re
     is_comm = lambda i: 1 <= i <= len(lines) and _re.match(r'[ \t]*#', lines[i - 1]) is not None
     is_blank = lambda i: 1 <= i <= len(lines) and _re.fullmatch(r'[ \t]*\\?', lines[i - 1]) is not None
@@ -352,6 +355,8 @@ def stage_oracle(ctx: Ctx, progs):
                     v = strict_comment_check(before, after, op, code)
             if v:
                 sig = f'text|{op["kind"]}|{v["why"][:40]}'
+                if edits.eof_trailing_space_case(before, op):
+                    sig = 'stmt-put-at-eof-without-newline-with-trailing-space-trivia'
                 if v['why'].startswith('a comment not selected') and before.count('elif') < after.count('elif'):
                     # the lost comment stood between a block body and its `else:` line, and the edit merged `else:` + `if` into `elif`
                     sig = 'comment-lost|else-if-merged-into-elif'
